@@ -1186,6 +1186,31 @@ theorem unV_sound (env : Env) (i : Instr) (a r : Val) (hwa : WF a) (h : Spec.unV
       · split at h
         · simp at h; subst h; simp [unTy, packTy, hp, typeOf]
         · simp at h
+  · -- UNPACK
+    rename_i t
+    simp only [Spec.unV] at h
+    unfold Spec.unpackV at h
+    split at h
+    · rename_i b
+      split at h
+      · simp at h
+      · rename_i hu
+        simp only [Bool.not_eq_true', Bool.not_eq_false] at hu
+        have hnone : WF (.none t) ∧ unTy (.UNPACK t) (typeOf (.bytes b)) = some (typeOf (.none t)) := by
+          simp [WF, HasTy, checkVal, typeOf, unTy, unpackTy, hu]
+        split at h
+        · split at h
+          · rename_i v hv
+            simp at h; subst h
+            obtain ⟨d, _, hd⟩ := Option.bind_eq_some_iff.mp hv
+            have hc := (readVal_wf env.readTimestamp Mode.strict t hu d v hd).1
+            have hty : typeOf v = t := (hasTy_iff.mp hc).2
+            refine ⟨?_, by simp [unTy, unpackTy, hu, typeOf, hty]⟩
+            show HasTy (.some v) (typeOf (.some v))
+            simp only [typeOf, HasTy, checkVal, hty]; exact hc
+          · simp at h; subst h; exact hnone
+        · simp at h; subst h; exact hnone
+    · simp at h
 
 section
 variable (env : Env) (st st' : List Val) (hw : StackWF st)
@@ -1358,5 +1383,8 @@ theorem step_sound (env : Env) (i : Instr) (st st' : List Val) (hw : StackWF st)
   case PACK =>
     exact sound_unop env st st' hw .PACK (Spec.unV env .PACK) (unTy .PACK) (fun _ _ => rfl) rfl
       (fun _ _ => rfl) (unV_sound env .PACK) hev
+  case UNPACK t =>
+    exact sound_unop env st st' hw (.UNPACK t) (Spec.unV env (.UNPACK t)) (unTy (.UNPACK t)) (fun _ _ => rfl) rfl
+      (fun _ _ => rfl) (unV_sound env (.UNPACK t)) hev
 
 end Interp
